@@ -137,9 +137,9 @@ type stmt struct {
 func TestC05(t *testing.T) {
 	st := stats.New("C05", "")
 	defer st.Flush()
-	maxRows, depth := 8, 3
+	maxRows, depth := 10, 3
 	if os.Getenv("VERIF_TIER") == "thorough" {
-		maxRows, depth = 12, 4
+		maxRows, depth = 14, 4
 	}
 	rapid.Check(t, func(rt *rapid.T) {
 		st.Eval()
@@ -356,7 +356,12 @@ func TestC05(t *testing.T) {
 				case x.res.TimedOut:
 					st.Class("discard:timeout")
 				default:
+					msg := x.res.Err.Error()
+					if len(msg) > 48 {
+						msg = msg[:48]
+					}
 					st.Class("discard:error")
+					st.Class("discard:error: " + msg)
 				}
 				return
 			}
